@@ -533,6 +533,7 @@ func genC07(r *rng, tier string, emit func(string)) {
 		}
 	}
 	c06rGenRead(r, tier, emit) // Conn.Read buffering (Model.ConnRead)
+	c07GenTrunc(r, tier, emit) // the transport ends after 1..4 bytes of a record header
 }
 
 // craftCBCRecord builds a GMSSL SM4-CBC + HMAC-SM3 record by hand: header ‖ explicit IV ‖ CBC(payload ‖ MAC ‖ pad)
